@@ -1,7 +1,9 @@
 //! Per-property case generators and implementation observers.
 use crate::term::*;
 
+pub mod c02;
 pub mod c05;
+pub mod script;
 pub mod util;
 
 /// (cases, [(family name, count, exhaustive)])
@@ -9,6 +11,7 @@ pub type Gen = (Vec<Term>, Vec<(String, usize, bool)>);
 
 pub fn gen(prop: &str, tier: &str, seed: u64) -> Gen {
     match prop {
+        "C02" => c02::gen(tier, seed),
         "C05" => c05::gen(tier, seed),
         _ => panic!("unknown property {}", prop),
     }
@@ -16,6 +19,7 @@ pub fn gen(prop: &str, tier: &str, seed: u64) -> Gen {
 
 pub fn run(prop: &str, case: &Term) -> Term {
     match prop {
+        "C02" => c02::run(case),
         "C05" => c05::run(case),
         _ => panic!("unknown property {}", prop),
     }
